@@ -22,6 +22,9 @@ func lzRoundtripOracle(c *Ctx, prop string, crc bool, in lzInput, cuts []int, si
 
 func init() {
 	register("C06", "cases: byte strings through the real Writer (a chosen partition into Write calls) and the real Reader (a chosen buffer-size sequence): exhaustive strings over {a,b,' '} up to length 5 (7 thorough), empty, prefill boundaries 58..62, runs, periodic texts (periods 1..3, 59..61, 1987..2049), leading-space, random small/large alphabets, text, window-wrap repeats, run-length, mini Fibonacci-profile (exact-length-match phases), the five testdata files, and the full Fibonacci-profile input in the thorough tier. Compared with the Lean model: compressed bytes, FNV digest of the COMPLETE compressor state after every Write, reader (n,err) sequence, bytes, Close, reader state digest. Oracle: Read(Write(x)) = x, Close = nil, bytes independent of the write partition. Non-trivial: inputs of >= 61 bytes (prefill completes) or a multi-call partition; distinct by case line.", func(c *Ctx) {
+		// the Reader is fed through fragmenting sources as well (see lzSource)
+		lzFragmentSources = true
+		defer func() { lzFragmentSources = false }()
 		var cases []Case
 		var ins []lzInput
 		// exhaustive short strings
